@@ -147,11 +147,35 @@ def r1_field_flow(c, facts):
     c.sample({'written': len(written), 'read': len(read)})
 
 
+MAP_ITER = ('IndexMap::iter', 'IndexMap::into_iter', 'IndexMap::keys', 'IndexMap::values', 'IndexMap::drain', 'HashMap::iter', 'HashMap::into_iter',
+            'HashMap::keys', 'Mapping::iter', 'Mapping::into_iter', 'BTreeMap::iter', 'BTreeMap::into_iter', 'EnumMap::iter', 'EnumMap::into_iter')
+MIXERS = {'chain', 'flat_map', 'flatten', 'zip', 'cycle', 'interleave'}
+
+
+def source_is_map_iteration(fn, t, argi):
+    if argi >= len(t['args']) or 'l' not in t['args'][argi]:
+        return False
+    idx = MF.defs_index(fn)
+    sl = MF.slice_back(fn, t['args'][argi]['l'], idx)
+    names = [P.strip(n) for n, _, _ in sl['calls']]
+    is_map = False
+    for n, t2, _ in sl['calls']:
+        n2 = P.strip(n)
+        if any(n2.endswith(x) for x in MAP_ITER):
+            is_map = True
+        if n2.endswith('IntoIterator::into_iter') and re.search(r'(IndexMap|HashMap|BTreeMap|EnumMap|Mapping)<', (callee_of(t2) or {}).get('self_ty', '') or ''):
+            is_map = True
+    if any(n.split('::')[-1] in MIXERS for n in names):
+        return False
+    return is_map
+
+
 def r2_lossy_ins(c, facts):
     R = c.rule('C02.R2', 'LOSSY-INS: insertions into output maps merge, or are triaged by name')
     sites = {}
     merging = 0
     nfn = 0
+    auto_unique = set()
     for fn in facts.fns.values():
         if not fn.mir:
             continue
@@ -187,6 +211,11 @@ def r2_lossy_ins(c, facts):
                 mt = st if (MAPTY.search(st) or opt_resp) else a0
             if mt is None:
                 continue
+            if name in ('collect', 'from_iter') and source_is_map_iteration(fn, t, 0):   # a fresh destination only
+                c.ok(R, {'fn': q, 'api': name, 'map': short_ty(mt), 'class': 'unique: the source is the iteration of a map (keys pass through)'})
+                merging += 1
+                auto_unique.add((base, name, short_ty(mt)))
+                continue
             sites.setdefault((base, name, short_ty(mt)), []).append(t['ln'])
     c.floor(R, 'functions scanned for output-map insertions', nfn, 100)
     c.floor(R, 'insertion sites classified', len(sites) + merging, 15)
@@ -207,7 +236,7 @@ def r2_lossy_ins(c, facts):
             inst['reason'] = row[2]
             c.ok(R, inst)
             c.sample(inst)
-    stale = [k for k in TRIAGE if k not in sites]
+    stale = [k for k in TRIAGE if k not in sites and k not in auto_unique]
     c.extra['triage_rows_not_observed'] = [list(k) for k in stale]
 
 
